@@ -34,6 +34,16 @@ type rGen struct {
 	pendingViol bool
 	hist        [][][2]int64 // per source: every (id, owner) ever sent
 	resend      [][][2]int64 // per source: tasks to re-send after a source-stream restart (same ids, same owners)
+	slowSrc     bool         // the sources are at times slow to read their acknowledgements (`sgate`)
+	sgated      []bool
+}
+
+func newRGenSlowSrc(rng *rand.Rand, focus string) (*rGen, string) {
+	g, begin := newRGen(rng, focus)
+	g.slowSrc = true
+	g.sgated = make([]bool, g.ns)
+	g.faultsLeft = 0
+	return g, begin + " slowsrc"
 }
 
 func newRGen(rng *rand.Rand, focus string) (*rGen, string) {
@@ -218,6 +228,12 @@ func (g *rGen) next(w *rWorld, i int) string {
 		}
 		// drain: open gates, open every target, then two fair rounds
 		g.drained = true
+		for s := range g.sgated {
+			if g.sgated[s] {
+				g.queue = append(g.queue, fmt.Sprintf("sgate %d 0", s))
+				g.sgated[s] = false
+			}
+		}
 		for t := 0; t < g.nt; t++ {
 			if g.gated[t] {
 				g.queue = append(g.queue, fmt.Sprintf("gate %d 0", t))
@@ -253,6 +269,39 @@ func (g *rGen) next(w *rWorld, i int) string {
 			}
 		}
 		return any
+	}
+	if g.slowSrc {
+		// a source that is slow to read: close / open its gate; while it is closed, idle watermarks of that source and
+		// (repeated) acks of the targets pile up behind the blocked Send
+		switch y := rng.IntN(100); {
+		case y < 12:
+			s := rng.IntN(g.ns)
+			if w.srcCli[s] != nil {
+				g.sgated[s] = !g.sgated[s]
+				b := 0
+				if g.sgated[s] {
+					b = 1
+				}
+				return fmt.Sprintf("sgate %d %d", s, b)
+			}
+		case y < 40:
+			for s := range g.sgated {
+				if g.sgated[s] && rng.IntN(2) == 0 {
+					if rng.IntN(2) == 0 { // an idle watermark: empty batch with a new high
+						if g.high[s] < g.nextID[s] {
+							g.high[s] = g.nextID[s]
+						}
+						g.high[s] += int64(1 + rng.IntN(3))
+						g.nextID[s] = g.high[s]
+						return fmt.Sprintf("batch %d %d", s, g.high[s])
+					}
+					t := rng.IntN(g.nt)
+					if ti := w.tgt[t]; ti != nil && !ti.broken && ti.acked > 0 {
+						return fmt.Sprintf("ack %d %d", t, ti.acked) // the target repeats its last acknowledgement
+					}
+				}
+			}
+		}
 	}
 	for tries := 0; tries < 20; tries++ {
 		x := rng.IntN(100)
@@ -382,6 +431,21 @@ func runRoutingFocus(t *testing.T, focus string) {
 	n := 600
 	if e.Thorough() {
 		n = 15000
+	}
+	// slow sources (monitors only): the source cluster is at times slow to read its acknowledgements, so a Send of the
+	// receiver blocks half-way through an acknowledgement step — the one piece of the ack path the model treats as atomic
+	nSlow := 0
+	if focus == "C03" || focus == "C01" {
+		nSlow = n / 4
+	}
+	for i := 0; i < nSlow; i++ {
+		g, begin := newRGenSlowSrc(e.Rng, focus)
+		ops, viol := runRoutingTrace(t, e, begin, g.next)
+		e.Evals++
+		if len(ops) > 6 {
+			e.Distinct(fnv(strings.Join(ops, "|")))
+		}
+		report(viol)
 	}
 	for i := 0; i < n; i++ {
 		g, begin := newRGen(e.Rng, focus)
